@@ -6,6 +6,7 @@ ALL = "IO II IF IU UO UU UF UI LO LL LF LQ QO QQ QF QL OO OI OU OL OQ fs".split(
 def run(ctx):
     fams = QUICK if ctx.tier == "quick" else ALL
     ctx.cvc(fams, ["T-PIN"])
+    ctx.cvc(["II", "OO"] if ctx.tier == "quick" else fams, ["T-USE"])
     from props import _generic as g
     from lib import replay
     leaf = [t for t in g.py_targets("C01") if t.split(".")[0] in ("Bucket", "Set", "_BucketBase")]
@@ -18,6 +19,11 @@ def run(ctx):
         "field written by the PER_USE/PER_UNUSE expansions (clang AST of the preprocessed TU, "
         "state merging at joins, loops cut at an inferred invariant, callees by the same contract). "
         "This is the third sentence of the property (nothing stays pinned, also on failing calls). "
+        "T-USE (first and second sentence, the mechanism): every access to a vector field (len, size, keys, values, next, "
+        "data, firstbucket) of a node is made while `state` says the node is not a ghost; functions whose protocol is 'the caller "
+        "activates' are inferred and every call site proves its argument pinned; entry points get no assumption (type slots) or "
+        "'activated by attribute lookup' (named methods); the summary 'which arguments a function may leave un-pinned' is itself a "
+        "fixpoint of per-function proofs; loops by Houdini-chosen invariants. "
         "Python leaf layer, evict mode of Engine P: the search may turn the unchanged node into a ghost and reload it "
         "into new list objects; every leaf function still meets its whole-view contract (it re-reads its lists after "
         "the search). "
